@@ -237,3 +237,61 @@ def h3_endpoint_job(ctx):
             "large ClientHellos are made with a long ALPN list (quiche offers no post-quantum key share); the ClientHello of the completed handshake is the one sent after the endpoint's stateless Retry, its packet count = Initial datagrams of the first burst that carries the retry token",
         ],
     }
+
+
+def h3_fault_job(ctx):
+    """C02 on HTTP/3: the FAULT scenarios TLC prints from MCPipeE2EF (tag E2EF: one side fails after the scripted chunks) on an
+    established CONNECT tunnel through the real QUIC path and the real TcpForwarder."""
+    ctx.build("c02h3")
+    f = ctx.tlc("MCPipeE2EF", "MCPipeE2EF.cfg", workers=4, timeout=900, coverage=False, name="MCPipeE2EF.h3")
+    ctx.spec_must_hold(f)
+    nvec = len({json.dumps([v["so"], v["si"], v["bad"]]) for v in tagged_lines(f["out"], "E2EF")})
+    if nvec == 0:
+        raise ToolError("TLC exported no E2EF fault vectors")
+    r = ctx.harness("c02h3", ["--fault-vectors", f["out"]], name="c02h3", env={"VERIF_ROOT": ROOT}, timeout=900)
+    c = r["counters"]
+    aborted = any("aborted by the watchdog" in n or "process died" in n for n in r.get("notes", []))
+    if not aborted:
+        if c.get("vectors", 0) != nvec:
+            raise ToolError("c02h3 read %s fault vectors, TLC printed %d distinct ones" % (c.get("vectors"), nvec))
+        for need in ("variant_reset-idle", "variant_reset-midframe", "variant_reset-both", "variant_conn-close", "variant_rst", "variant_rst-mid"):
+            if c.get(need, 0) == 0:
+                raise ToolError("vacuous HTTP/3 fault replay: %s never ran" % need)
+    return {
+        "h3_fault_vectors": nvec, "h3_fault_evaluations": r["evaluations"], "h3_fault_distinct_nontrivial": r["distinct_nontrivial"],
+        "h3_fault_states": f["distinct"], "h3_fault_transitions": f["states"], "h3_fault_samples": r["samples"][:2],
+        "h3_fault_rule": ("every fault vector TLC prints from MCPipeE2EF (scripts of both directions, which source fails; Pipe.tla: FailStop, NeverClean, delivered = prefix) "
+                          "on an established HTTP/3 CONNECT tunnel (Core::listen with QUIC, Http3Codec, Tunnel, DuplexPipe, real TcpForwarder, TCP destination on loopback): "
+                          "the scripted chunks go through both ways first (position-coded, compared exactly), then the failing side fails - client: RESET_STREAM between DATA "
+                          "frames with the endpoint's reader parked and the connection kept busy with PINGs (a health check on the same connection must still be answered), "
+                          "RESET_STREAM inside a DATA frame, RESET_STREAM + STOP_SENDING, CONNECTION_CLOSE; destination: TCP RST (SO_LINGER 0) after everything was read, and in the "
+                          "middle of a 300-600 kB download. Expected: the other side's connection / stream ends within 5 s, nothing arrives beyond what the failing side sent, what "
+                          "arrived is an exact prefix, and a destination failure reaches the client as a stream reset, never as a clean end of stream."),
+        "h3_fault_assumptions": [
+            "fault scenarios run over real loopback UDP/TCP in real time; 'ends' = within 5 s; the client reads the transport's verdict (RESET_STREAM) where quiche's HTTP/3 layer reports a reset stream as finished",
+        ],
+    }
+
+
+def h3_demux_job(ctx, name, tlc_out, max_configs=0):
+    """C05 on QUIC: the decision-table vectors of MCDemuxTable (already printed by TLC for slice `name`) whose configuration has a QUIC listener
+    and whose ALPN list offers h3, replayed over real QUIC handshakes; per-host distinct certificates; the client compares the leaf certificate it
+    was served, the channel and the credentials label with the answer set for transport "quic"."""
+    ctx.build("c05q")
+    args = ["--vectors", tlc_out]
+    if max_configs:
+        args += ["--max-configs", str(max_configs)]
+    r = ctx.harness("c05q", args, name="c05q." + name, env={"VERIF_ROOT": ROOT}, timeout=1500)
+    c = r["counters"]
+    aborted = any("aborted by the watchdog" in n or "process died" in n for n in r.get("notes", []))
+    if not aborted and not r.get("violations"):
+        if c.get("quic_points", 0) == 0 or r["evaluations"] != c.get("quic_points", 0):
+            raise ToolError("c05q evaluated %s of %s QUIC points of slice %s" % (r["evaluations"], c.get("quic_points"), name))
+        need = ["expect_tunnel", "expect_ping", "expect_speedtest", "expect_reverse_proxy", "expect_sni_creds", "expect_cert_other_than_first_main"]
+        if name == "qprotos":
+            need.append("points_without_http1")
+        for k in need:
+            if c.get(k, 0) == 0:
+                raise ToolError("vacuous QUIC demux replay (%s): counter %s is 0" % (name, k))
+    return {"quic_points": c.get("quic_points", 0), "quic_configs": c.get("quic_configs", 0), "evaluations": r["evaluations"],
+            "distinct_nontrivial": r["distinct_nontrivial"], "samples": r["samples"][:1]}
